@@ -82,7 +82,7 @@ type blockFilterer struct {
 	matchedIndices map[int]bool
 
 	// checkedAt holds, for every transaction checked so far, the filter's
-	// update count right after that check.
+	// update count right before that check.
 	checkedAt map[int]uint64
 }
 
@@ -103,8 +103,13 @@ func (bf *blockFilterer) checkFilterTx(tx *bchutil.Tx, txIndex int, inputs map[c
 	if at, ok := bf.checkedAt[txIndex]; ok && at == bf.filter.updateCount() {
 		return
 	}
+	// The count is read before the check: outputs are tested one after the
+	// other, so an insertion made for a later output of this transaction may
+	// turn an earlier one into a match.  If the check itself changed the
+	// filter the transaction is looked at once more when it is reached again.
+	at := bf.filter.updateCount()
 	matched := bf.filter.MatchTxAndUpdate(tx)
-	bf.checkedAt[txIndex] = bf.filter.updateCount()
+	bf.checkedAt[txIndex] = at
 	if matched {
 		bf.matchedIndices[txIndex] = true
 		if dependentTxs, ok := inputs[tx.MsgTx().TxHash()]; ok {
